@@ -440,170 +440,294 @@ func rq8NodeInfoGuards(w *World) {
 // implies len(x) > K (must-dataflow with branch facts from len(x) > c, >= c, != 0, == 0), or be in
 // the reviewed table below.
 func rq10ConstIndexGuards(w *World) {
-	w.rule("RQ10")
-	p := w.pkg("parser")
-	if p == nil {
-		return
-	}
-	info := p.TypesInfo
-	reviewed := map[string]string{
+	constIndexGuards(w, "RQ10", []string{"parser"}, func(fn string) bool {
+		return strings.HasSuffix(fn, "parser/result.go") || strings.HasSuffix(fn, "parser/validate.go")
+	}, map[string]string{
 		"parser.(*result).asGroupDescriptors|group.Name.Val[0]": "an identifier token is never empty (the lexer only produces _NAME for at least one identifier character)",
-	}
+	}, 5, "these functions keep running after an error was reported (keep-going reporter), so an earlier 'is empty' report does not protect the index — ResultFromAST panics with index out of range")
+}
+
+// constIndexGuards: every x[K] with constant K on a slice or string in the selected files must be
+// dominated by a length test of the same expression implying len(x) > K, or be in the reviewed
+// table (key: function|expression).
+func constIndexGuards(w *World, rule string, rels []string, fileOK func(string) bool, reviewed map[string]string, floor int, consequence string) {
+	w.rule(rule)
 	n := 0
-	for _, b := range allFuncBodies(p) {
-		if b.Lit != nil {
+	for _, rel := range rels {
+		p := w.pkg(rel)
+		if p == nil {
 			continue
 		}
-		fn := w.Fset.Position(b.Decl.Pos()).Filename
-		if !strings.HasSuffix(fn, "parser/result.go") && !strings.HasSuffix(fn, "parser/validate.go") {
-			continue
-		}
-		type site struct {
-			ix *ast.IndexExpr
-			k  int64
-		}
-		var sites []site
-		ast.Inspect(b.Body, func(x ast.Node) bool {
-			ix, ok := x.(*ast.IndexExpr)
-			if !ok {
-				return true
+		info := p.TypesInfo
+		for _, b := range allFuncBodies(p) {
+			if b.Lit != nil {
+				continue
 			}
-			tv, ok := info.Types[ix.Index]
-			if !ok || tv.Value == nil {
-				return true
+			if !fileOK(w.Fset.Position(b.Decl.Pos()).Filename) {
+				continue
 			}
-			t := info.TypeOf(ix.X)
-			if t == nil {
-				return true
+			type site struct {
+				ix *ast.IndexExpr
+				k  int64
 			}
-			switch u := t.Underlying().(type) {
-			case *types.Slice:
-			case *types.Basic:
-				if u.Info()&types.IsString == 0 {
+			var sites []site
+			ast.Inspect(b.Body, func(x ast.Node) bool {
+				ix, ok := x.(*ast.IndexExpr)
+				if !ok {
 					return true
 				}
-			default:
+				tv, ok := info.Types[ix.Index]
+				if !ok || tv.Value == nil {
+					return true
+				}
+				t := info.TypeOf(ix.X)
+				if t == nil {
+					return true
+				}
+				switch u := t.Underlying().(type) {
+				case *types.Slice:
+				case *types.Basic:
+					if u.Info()&types.IsString == 0 {
+						return true
+					}
+				default:
+					return true
+				}
+				if tvx, ok := info.Types[ix.X]; ok && tvx.Value != nil {
+					return true // constant string
+				}
+				var k int64
+				fmt.Sscan(tv.Value.ExactString(), &k)
+				sites = append(sites, site{ix, k})
 				return true
+			})
+			if len(sites) == 0 {
+				continue
 			}
-			if tvx, ok := info.Types[ix.X]; ok && tvx.Value != nil {
-				return true // constant string
-			}
-			var k int64
-			fmt.Sscan(tv.Value.ExactString(), &k)
-			sites = append(sites, site{ix, k})
-			return true
-		})
-		if len(sites) == 0 {
-			continue
-		}
-		g := buildCFG(info, b.Body)
-		d := &Dataflow{G: g, Must: true, Init: Facts{}}
-		d.Transfer = func(nd ast.Node, in Facts) Facts {
-			out := in
-			if as, ok := nd.(*ast.AssignStmt); ok {
-				for _, l := range as.Lhs {
-					ls := types.ExprString(l)
-					for k := range out {
-						if strings.HasPrefix(k, "lengt:") {
-							e := strings.SplitN(strings.TrimPrefix(k, "lengt:"), "§", 2)[0]
-							if e == ls || strings.HasPrefix(e, ls+".") || strings.HasPrefix(e, ls+"[") {
-								out = out.without(k)
+			g := buildCFG(info, b.Body)
+			parents := parentMap(b.Decl)
+			d := &Dataflow{G: g, Must: true, Init: Facts{}}
+			d.Transfer = func(nd ast.Node, in Facts) Facts {
+				out := in
+				if as, ok := nd.(*ast.AssignStmt); ok {
+					for _, l := range as.Lhs {
+						ls := types.ExprString(l)
+						for k := range out {
+							if strings.HasPrefix(k, "lengt:") {
+								e := strings.SplitN(strings.TrimPrefix(k, "lengt:"), "§", 2)[0]
+								if e == ls || strings.HasPrefix(e, ls+".") || strings.HasPrefix(e, ls+"[") {
+									out = out.without(k)
+								}
 							}
 						}
 					}
 				}
+				return out
 			}
-			return out
-		}
-		d.Branch = func(leaf ast.Expr, truth bool, s Facts) Facts {
-			be, ok := ast.Unparen(leaf).(*ast.BinaryExpr)
-			if !ok {
-				return s
-			}
-			c, ok := ast.Unparen(be.X).(*ast.CallExpr)
-			if !ok || !isBuiltinCall(info, c, "len") || len(c.Args) != 1 {
-				return s
-			}
-			tv, ok := info.Types[be.Y]
-			if !ok || tv.Value == nil {
-				return s
-			}
-			var cst int64
-			fmt.Sscan(tv.Value.ExactString(), &cst)
-			op := be.Op
-			if !truth {
+			d.Branch = func(leaf ast.Expr, truth bool, s Facts) Facts {
+				be, ok := ast.Unparen(leaf).(*ast.BinaryExpr)
+				if !ok {
+					return s
+				}
+				// string emptiness tests: x != "" / x == ""
+				if tv, isC := info.Types[be.Y]; isC && tv.Value != nil && tv.Value.ExactString() == `""` {
+					if (be.Op == token.NEQ) == truth && (be.Op == token.NEQ || be.Op == token.EQL) {
+						return s.with(fmt.Sprintf("lengt:%s§0", types.ExprString(be.X)))
+					}
+					return s
+				}
+				c, ok := ast.Unparen(be.X).(*ast.CallExpr)
+				if !ok || !isBuiltinCall(info, c, "len") || len(c.Args) != 1 {
+					return s
+				}
+				tv, ok := info.Types[be.Y]
+				if !ok || tv.Value == nil {
+					return s
+				}
+				var cst int64
+				fmt.Sscan(tv.Value.ExactString(), &cst)
+				op := be.Op
+				if !truth {
+					switch op {
+					case token.GTR:
+						op = token.LEQ
+					case token.GEQ:
+						op = token.LSS
+					case token.LSS:
+						op = token.GEQ
+					case token.LEQ:
+						op = token.GTR
+					case token.EQL:
+						op = token.NEQ
+					case token.NEQ:
+						op = token.EQL
+					}
+				}
+				// greatest m with len > m established
+				var m int64 = -1
 				switch op {
 				case token.GTR:
-					op = token.LEQ
+					m = cst
 				case token.GEQ:
-					op = token.LSS
-				case token.LSS:
-					op = token.GEQ
-				case token.LEQ:
-					op = token.GTR
-				case token.EQL:
-					op = token.NEQ
+					m = cst - 1
 				case token.NEQ:
-					op = token.EQL
+					if cst == 0 {
+						m = 0
+					}
+				case token.EQL:
+					m = cst - 1
 				}
-			}
-			// greatest m with len > m established
-			var m int64 = -1
-			switch op {
-			case token.GTR:
-				m = cst
-			case token.GEQ:
-				m = cst - 1
-			case token.NEQ:
-				if cst == 0 {
-					m = 0
+				out := s
+				for j := int64(0); j <= m && j < 8; j++ {
+					out = out.with(fmt.Sprintf("lengt:%s§%d", types.ExprString(c.Args[0]), j))
 				}
-			case token.EQL:
-				m = cst - 1
+				return out
 			}
-			out := s
-			for j := int64(0); j <= m && j < 8; j++ {
-				out = out.with(fmt.Sprintf("lengt:%s§%d", types.ExprString(c.Args[0]), j))
-			}
-			return out
-		}
-		d.Run()
-		seen := map[*ast.IndexExpr]bool{}
-		d.Walk(func(_ *cfg.Block, nd ast.Node, before Facts) {
-			ast.Inspect(nd, func(y ast.Node) bool {
-				if _, isLit := y.(*ast.FuncLit); isLit {
-					return false
-				}
-				ix, ok := y.(*ast.IndexExpr)
-				if !ok || seen[ix] {
+			d.Run()
+			seen := map[*ast.IndexExpr]bool{}
+			d.Walk(func(_ *cfg.Block, nd ast.Node, before Facts) {
+				ast.Inspect(nd, func(y ast.Node) bool {
+					if _, isLit := y.(*ast.FuncLit); isLit {
+						return false
+					}
+					ix, ok := y.(*ast.IndexExpr)
+					if !ok || seen[ix] {
+						return true
+					}
+					for _, st := range sites {
+						if st.ix != ix {
+							continue
+						}
+						seen[ix] = true
+						n++
+						key := "const-index|" + b.Label + "|" + types.ExprString(ix)
+						st8 := d.withinExprState(nd, ix, before)
+						guarded := st8[fmt.Sprintf("lengt:%s§%d", types.ExprString(ix.X), st.k)]
+						if !guarded {
+							// `switch len(x) { case K: … x[k] … }` with every K > k
+							for cur := parents[ast.Node(ix)]; cur != nil && !guarded; cur = parents[cur] {
+								cc, ok := cur.(*ast.CaseClause)
+								if !ok || len(cc.List) == 0 {
+									continue
+								}
+								sw, ok := parents[parents[cur]].(*ast.SwitchStmt)
+								if !ok || sw.Tag == nil {
+									continue
+								}
+								lc, ok := ast.Unparen(sw.Tag).(*ast.CallExpr)
+								if !ok || !isBuiltinCall(info, lc, "len") || len(lc.Args) != 1 || types.ExprString(lc.Args[0]) != types.ExprString(ix.X) {
+									continue
+								}
+								all := true
+								for _, e := range cc.List {
+									tv, ok := info.Types[e]
+									var kv int64
+									if !ok || tv.Value == nil {
+										all = false
+										continue
+									}
+									fmt.Sscan(tv.Value.ExactString(), &kv)
+									if kv <= st.k {
+										all = false
+									}
+								}
+								guarded = all
+							}
+						}
+						if !guarded {
+							// aliases: x is a local only ever assigned other slice variables (x := a; x, y = y, x);
+							// guarded if every root it can stand for has the fact
+							if id, ok := ast.Unparen(ix.X).(*ast.Ident); ok {
+								roots := aliasRoots(info, b.Body, info.Uses[id])
+								if len(roots) > 0 {
+									all := true
+									for _, r := range roots {
+										if !st8[fmt.Sprintf("lengt:%s§%d", r, st.k)] {
+											all = false
+										}
+									}
+									guarded = all
+								}
+							}
+						}
+						if guarded {
+							w.ok(key, ix.Pos(), fmt.Sprintf("dominated by a length test establishing len(%s) > %d", types.ExprString(ix.X), st.k))
+						} else if why, ok := reviewed[b.Label+"|"+types.ExprString(ix)]; ok {
+							w.ok(key, ix.Pos(), "reviewed: "+why)
+						} else {
+							w.violation(key, ix.Pos(), fmt.Sprintf("%s is indexed at %d without a dominating test that len(%s) > %d: %s", types.ExprString(ix.X), st.k, types.ExprString(ix.X), st.k, consequence))
+						}
+					}
 					return true
-				}
-				for _, st := range sites {
-					if st.ix != ix {
-						continue
-					}
-					seen[ix] = true
-					n++
-					key := "const-index|" + b.Label + "|" + types.ExprString(ix)
-					st8 := d.withinExprState(nd, ix, before)
-					if st8[fmt.Sprintf("lengt:%s§%d", types.ExprString(ix.X), st.k)] {
-						w.ok(key, ix.Pos(), fmt.Sprintf("dominated by a length test establishing len(%s) > %d", types.ExprString(ix.X), st.k))
-					} else if why, ok := reviewed[b.Label+"|"+types.ExprString(ix)]; ok {
-						w.ok(key, ix.Pos(), "reviewed: "+why)
-					} else {
-						w.violation(key, ix.Pos(), fmt.Sprintf("%s is indexed at %d without a dominating test that len(%s) > %d: these functions keep running after an error was reported (keep-going reporter), so an earlier 'is empty' report does not protect the index — ResultFromAST panics with index out of range", types.ExprString(ix.X), st.k, types.ExprString(ix.X), st.k))
-					}
-				}
-				return true
+				})
 			})
-		})
-		for _, st := range sites {
-			if !seen[st.ix] {
-				n++
-				// inside a function literal or unreachable block: decide syntactically as undecided
-				w.undecided("const-index|"+b.Label+"|"+types.ExprString(st.ix), st.ix.Pos(), "constant index inside a function literal or unreachable code: not analysed")
+			for _, st := range sites {
+				if !seen[st.ix] {
+					n++
+					// inside a function literal or unreachable block: decide syntactically as undecided
+					w.undecided("const-index|"+b.Label+"|"+types.ExprString(st.ix), st.ix.Pos(), "constant index inside a function literal or unreachable code: not analysed")
+				}
 			}
 		}
 	}
-	w.floor("constant-index expressions in parser/result.go and parser/validate.go", n, 5)
+	w.floor("constant-index expressions in "+strings.Join(rels, ", "), n, floor)
+}
+
+// aliasRoots: the variables a local slice variable can stand for when all its assignments copy
+// other identifiers (v := a; v, w = w, v). Returns nil if any assignment is not a plain identifier.
+func aliasRoots(info *types.Info, body *ast.BlockStmt, obj types.Object) []string {
+	if obj == nil {
+		return nil
+	}
+	src := map[types.Object][]types.Object{}
+	plain := map[types.Object]bool{}
+	ast.Inspect(body, func(x ast.Node) bool {
+		as, ok := x.(*ast.AssignStmt)
+		if !ok || len(as.Lhs) != len(as.Rhs) {
+			return true
+		}
+		for i, l := range as.Lhs {
+			id, ok := l.(*ast.Ident)
+			if !ok {
+				continue
+			}
+			o := info.Defs[id]
+			if o == nil {
+				o = info.Uses[id]
+			}
+			if o == nil {
+				continue
+			}
+			if rid, ok := ast.Unparen(as.Rhs[i]).(*ast.Ident); ok && info.Uses[rid] != nil {
+				src[o] = append(src[o], info.Uses[rid])
+				if _, seen := plain[o]; !seen {
+					plain[o] = true
+				}
+			} else {
+				plain[o] = false
+			}
+		}
+		return true
+	})
+	if !plain[obj] {
+		return nil
+	}
+	seen := map[types.Object]bool{}
+	var roots []string
+	var walk func(o types.Object)
+	walk = func(o types.Object) {
+		if seen[o] {
+			return
+		}
+		seen[o] = true
+		if plain[o] {
+			for _, s := range src[o] {
+				walk(s)
+			}
+			return
+		}
+		roots = append(roots, o.Name())
+	}
+	walk(obj)
+	return roots
 }
